@@ -46,7 +46,9 @@ def gen_case(rng, what):
     sel = None
     if what in DETERMINISTIC and n >= 2:
         sel = [rng.randrange(n) for _ in range(rng.randint(1, n + 1))]
-    return dict(what=what, n=n, bss=bss, sel=sel, seed=rng.randrange(1 << 30), model_seed=rng.randrange(1 << 30))
+    # a third of the cases use a single-output model (regression / one logit): predictions and targets of shape (N, 1)
+    nout = 1 if (what != "MuFidelityExact" and rng.random() < 0.34) else 3
+    return dict(what=what, n=n, bss=bss, sel=sel, seed=rng.randrange(1 << 30), model_seed=rng.randrange(1 << 30), nout=nout)
 
 
 def generate(rng, tier):
@@ -66,13 +68,13 @@ def distribution(cases):
                 with_selection=core.hist(c["sel"] is not None for c in cases))
 
 
-def conv_model(seed):
+def conv_model(seed, nout=3):
     import tensorflow as tf
     rs = np.random.RandomState(seed % (1 << 31))
     inp = tf.keras.Input((8, 8, 1))
     x = tf.keras.layers.Conv2D(2, 3, activation="relu", name="conv")(inp)
     x = tf.keras.layers.Flatten()(x)
-    x = tf.keras.layers.Dense(3, name="logits")(x)
+    x = tf.keras.layers.Dense(nout, name="logits")(x)
     m = tf.keras.Model(inp, x)
     m.set_weights([(rs.randint(-2, 3, size=w.shape) / 2.0).astype(np.float32) for w in m.get_weights()])
     return m
@@ -147,8 +149,10 @@ def run_impl(case):
     rs = np.random.RandomState(case["seed"] % (1 << 31))
     n = case["n"]
     x = (rs.randint(0, 9, size=(n, 8, 8, 1)) / 8.0).astype(np.float32)
-    t = np.eye(3, dtype=np.float32)[rs.randint(0, 3, size=n)]
-    model = linear_model(case["model_seed"]) if what == "MuFidelityExact" else conv_model(case["model_seed"])
+    nout = case.get("nout", 3)
+    t = np.eye(3, dtype=np.float32)[rs.randint(0, 3, size=n)] if nout == 3 else \
+        (rs.choice([-1.0, 1.0, 0.5], size=(n, 1))).astype(np.float32)
+    model = linear_model(case["model_seed"]) if what == "MuFidelityExact" else conv_model(case["model_seed"], nout)
     eager_before = tf.config.functions_run_eagerly()
     if what in SAMPLING or what == "MuFidelityExact":
         tf.config.run_functions_eagerly(True)
